@@ -52,7 +52,7 @@ def labelled_cases(case, rng, cap):
     return out
 
 
-def concrete_failures(desc, m, syn, ordered, costs):
+def concrete_failures(desc, m, syn, ordered, costs, prev=None):
     case = H.Case(desc)
     inp = case.build(costs)
     m = {int(k): v for k, v in m.items()}
@@ -60,6 +60,15 @@ def concrete_failures(desc, m, syn, ordered, costs):
     cnt, ev, kept = res
     syn2 = {int(k): tuple(v) for k, v in syn.items()} if syn is not None else None
     out, onode = build_output(case, inp, m, syn2, ordered)
+    if prev is not None and syn is None:
+        out, onode = build_output(case, inp, {int(k): v for k, v in prev.items()}, None, None)
+        try:
+            out.cost(), [out.node_event(n) for n in out.object_species]
+        except Exception:
+            pass
+        snode = {n.name: n for n in inp.species_lca.tree.traverse()}
+        for k, v in m.items():
+            out.object_species[onode[case.O.name[k]]] = snode[case.S.name[v]]
     fails = []
     for u, kind in ev.items():
         got = out.node_event(onode[case.O.name[u]])
@@ -84,17 +93,19 @@ def concrete_failures(desc, m, syn, ordered, costs):
 
 
 def replay(data):
-    fails = concrete_failures(data["desc"], data["mapping"], data.get("syn"), data.get("ordered"), H.cost_unjson(data["costs"]))
+    fails = concrete_failures(data["desc"], data["mapping"], data.get("syn"), data.get("ordered"), H.cost_unjson(data["costs"]), data.get("prev"))
     for k, t in fails:
         print(f"  reproduced: {k}: {t}")
     return bool(fails)
 
 
-def _viol(kind, text, desc, m, syn, ordered, costs_conc):
+def _viol(kind, text, desc, m, syn, ordered, costs_conc, prev=None):
     data = {"desc": desc, "mapping": {str(k): v for k, v in m.items()},
             "syn": ({str(k): list(v) for k, v in syn.items()} if syn is not None else None),
-            "ordered": ordered, "costs": H.cost_json(costs_conc)}
-    fails = concrete_failures(desc, data["mapping"], data["syn"], ordered, costs_conc)
+            "ordered": ordered, "costs": H.cost_json(costs_conc), "prev": ({str(k): v for k, v in prev.items()} if prev is not None else None)}
+    fails = concrete_failures(desc, data["mapping"], data["syn"], ordered, costs_conc, data["prev"])
+    if prev is not None:
+        text += " (the output object was first evaluated for another mapping and then edited in place)"
     return {"kind": kind, "text": f"{text}; input {desc}; mapping {m}; syntenies {data['syn']}; costs {H.cost_json(costs_conc)}",
             "signature": {"kind": kind, "desc": desc, "mapping": data["mapping"], "syn": data["syn"], "ordered": ordered},
             "data": data, "confirmed": any(k == kind for k, _ in fails)}
@@ -124,18 +135,29 @@ def worker(item):
             ctx, costs = H.cost_ctx(sym, fixed={"hgt": inf}, coherent=False, max_paths=2000, budget_s=item["budget_s"])
             inp = case.build(costs)
             for _ in ctx.paths():
+                prev_m = None
                 for m, cnt, ev, kept in recs:
                     variants = [(None, None)] + ([(o, s) for o, s in labs] if case.leafsyn is not None else [])
                     for ordered, syn in variants:
                         if syn is not None and ordered and LB.ordered_sloss(case.O, ev, kept, syn) is None:
                             continue
                         o, onode = build_output(case, inp, m, syn, ordered)
+                        if prev_m is not None and syn is None and len(prev_m) == len(m):
+                            # history: ONE output object, first evaluated for the previous valid mapping, then edited in place into this one
+                            o, onode = build_output(case, inp, prev_m, None, None)
+                            try:
+                                o.cost(), [o.node_event(n) for n in o.object_species]
+                            except Exception:
+                                pass
+                            snode = {n.name: n for n in inp.species_lca.tree.traverse()}
+                            for k, v in m.items():
+                                o.object_species[onode[case.O.name[k]]] = snode[case.S.name[v]]
                         bad = False
                         for u, kind in ev.items():
                             out["obligations"] += 1
                             if o.node_event(onode[case.O.name[u]]) != EV[kind]:
                                 cc = H.concrete_costs(costs, ctx.model_values())
-                                out["violations"].append(_viol("event", f"node_event differs at {case.O.name[u]}", desc, m, syn, ordered, cc))
+                                out["violations"].append(_viol("event", f"node_event differs at {case.O.name[u]}", desc, m, syn, ordered, cc, prev_m if syn is None else None))
                                 bad = True
                             else:
                                 out["discharged"] += 1
@@ -163,11 +185,12 @@ def worker(item):
                                 out["discharged"] += 1
                             else:
                                 cc = H.concrete_costs(costs, model)
-                                out["violations"].append(_viol("cost", f"{what} differs from the recount", desc, m, syn, ordered, cc))
+                                out["violations"].append(_viol("cost", f"{what} differs from the recount", desc, m, syn, ordered, cc, prev_m if syn is None else None))
                         if out["sample"] is None and syn is not None:
                             out["sample"] = {"input": desc, "mapping": case.mapping_names(m), "ordered": ordered,
                                              "syntenies": {case.O.name[k]: list(v) for k, v in syn.items()},
                                              "evaluator_form": repr(o.cost()), "oracle_counts": list(cnt) + [n]}
+                    prev_m = m
                     if len(out["violations"]) >= 3:
                         break
                 if len(out["violations"]) >= 3:
